@@ -232,6 +232,7 @@ type verifC01Cluster struct {
 	produced map[int32]bool // marker ids the agent reported in a flushed bucket (hook APrep)
 	marking  atomic.Bool
 	nextID   atomic.Int32
+	agentGen int
 }
 
 func verifC01FreeAddr() string {
@@ -288,13 +289,20 @@ func (cl *verifC01Cluster) startAggregator(r int) {
 
 // verifC01Install routes hook events of the agent under test (and of the aggregators, as far as
 // they concern that agent) into the trace.  Events of the aggregators' built-in agents are dropped.
+var verifC01CurHost atomic.Value // host name of the live agent instance under test
+
 func verifC01Install(tr *verifkit.Trace, onPrep func(ids []int32)) {
 	agent.VerifMarkerMetric = verifC01MarkerMetric
+	verifC01CurHost.Store("verif-agent")
 	emit := func(ev string, kv ...any) {
 		for i := 0; i+1 < len(kv); i += 2 {
 			if kv[i] == "host" {
-				if h, _ := kv[i+1].(string); h != "verif-agent" {
-					return
+				h, _ := kv[i+1].(string)
+				if !strings.HasPrefix(h, "verif-agent") {
+					return // built-in agents of the aggregators
+				}
+				if ev[0] == 'A' && h != verifC01CurHost.Load().(string) {
+					return // leftovers of an agent instance that has "exited"
 				}
 			}
 		}
@@ -331,6 +339,27 @@ func verifC01NewCluster(t *testing.T, tr *verifkit.Trace) *verifC01Cluster {
 	return cl
 }
 
+// graceful agent restart: the shutdown sequence of cmd/statshouse, "process exit", then a new
+// agent instance on the same cache directory
+func (cl *verifC01Cluster) restartAgent() {
+	old := cl.agent
+	cl.tr.Emit("Fault", "kind", "agent-restart-graceful", "inst", "")
+	old.DisableNewSends()
+	old.WaitRecentSenders(time.Second * data_model.InsertDelay)
+	old.ShutdownFlusher()
+	old.WaitFlusher()
+	old.FlushAllData()
+	old.WaitPreprocessor()
+	cl.agentGen++
+	verifC01CurHost.Store(fmt.Sprintf("verif-agent-%d", cl.agentGen)) // mutes the old instance's hooks
+	old.VerifExit()
+	cl.tr.Emit("AgentRestart")
+	// a new agent starts flushing at now-2: wait so that it does not produce a second bucket for
+	// seconds the old instance already flushed (the spec identifies a bucket by its second)
+	time.Sleep(3200 * time.Millisecond)
+	cl.startAgent(3600)
+}
+
 func (cl *verifC01Cluster) startAgent(historicWindow int) {
 	agentDir := filepath.Join(cl.dir, "agent")
 	_ = os.MkdirAll(agentDir, 0o755)
@@ -351,7 +380,7 @@ func (cl *verifC01Cluster) startAgent(historicWindow int) {
 		cl.tr.Emit("MarkTry", "sec", nowUnix, "id", id)
 		a.AddCounter(nowUnix, cl.marker, []int32{0, 77, id}, 1)
 	}
-	ag, err := agent.MakeAgent("tcp4", agentDir, "", [][]string{{"127.0.0.0/8"}}, acfg, "verif-agent", format.TagValueIDComponentAgent,
+	ag, err := agent.MakeAgent("tcp4", agentDir, "", [][]string{{"127.0.0.0/8"}}, acfg, verifC01CurHost.Load().(string), format.TagValueIDComponentAgent,
 		nil, mc, nil, nil, func(string, ...interface{}) {}, mark, &gcr, nil)
 	if err != nil {
 		cl.t.Fatal(err)
@@ -423,6 +452,12 @@ func verifC01Scenario(name string, rnd interface{ Intn(int) int }, length int) [
 	add := func(at float64, what string, r int) { st = append(st, verifC01Step{at, what, r}) }
 	switch name {
 	case "calm":
+	case "agent-restart": // long outage of every replica, graceful agent restart in the middle of it
+		for q := 0; q < 3; q++ {
+			add(3, "refuse-on", q)
+			add(float64(length)-4, "refuse-off", q)
+		}
+		add(float64(length)-10, "agent-restart", 0)
 	case "scripted": // one of each, fixed positions
 		add(3, "storage-fail", 0)
 		add(3, "storage-fail", 1)
@@ -545,6 +580,8 @@ func TestVerifC01(t *testing.T) {
 		case "refuse-off":
 			tr.Emit("Fault", "kind", "replica-unreachable-off", "inst", cl.instName(st.r))
 			cl.proxies[st.r].setMode("pass")
+		case "agent-restart":
+			cl.restartAgent()
 		case "restart-graceful":
 			cl.restartGraceful(st.r)
 		case "restart-crash":
